@@ -157,7 +157,17 @@ type step struct {
 	Expiry string `json:"expiry,omitempty"`
 }
 
-var agesH = []float64{100, 50, 10, 2.5, -5, 30, 80}
+// ages in hours; the last two are beyond what a time.Duration can hold
+// (≈ 292 years): 300 and 335 years, still representable as a datum timestamp
+var agesH = []float64{100, 50, 10, 2.5, -5, 30, 80, 300 * 8766, 335 * 8766}
+
+// ago returns the instant age hours before t0.
+func ago(t0 time.Time, ageH float64) time.Time {
+	if ageH > 2e6 {
+		return t0.AddDate(-int(ageH/8766), 0, 0)
+	}
+	return t0.Add(-time.Duration(ageH * float64(time.Hour)))
+}
 var expiries = []time.Duration{time.Hour, 24 * time.Hour, 72 * time.Hour}
 
 type witness struct {
@@ -172,7 +182,7 @@ type witness struct {
 func TestC10(t *testing.T) {
 	r := ev.Start(t, "C10", "exploration")
 	defer r.Finish()
-	r.Rule("random stores (1-4 metrics, 0-12 data each, timestamps from a pool of 7 instants so ties are frequent, expiry marks from {1h,24h,72h}, limits 0-6) built through the real API, then one real Store.Gc(); the (before, after) pair is judged by the reference predicate; a second pass must change nothing. Non-trivial: at least one datum was removed and at least one survived in the same metric; distinct by the before-snapshot text.")
+	r.Rule("random stores (1-4 metrics, 0-12 data each, timestamps from a pool of 9 instants (two of them 300 and 335 years back, beyond the range of a time.Duration) so ties are frequent, expiry marks from {1h,24h,72h}, limits 0-6) built through the real API, then one real Store.Gc(); the (before, after) pair is judged by the reference predicate; a second pass must change nothing. Non-trivial: at least one datum was removed and at least one survived in the same metric; distinct by the before-snapshot text.")
 	r.Assume("Gc reads time.Now() itself: every datum's age differs from each expiry by >= 0.5h so the verdict does not depend on where in the harness's [t0,t1] bracket the clock was sampled", "limit ties (equal timestamps) are judged by the stated inequality, not an exact victim set", "'at most N' is read literally: removing more of the oldest data than needed is not reported")
 	n := ev.Pick(6000, 300000)
 	rng := ev.NewRNG(ev.Seed(), "c10")
@@ -209,7 +219,7 @@ func TestC10(t *testing.T) {
 					st.Op = "set"
 					st.AgeIdx = g.Intn(len(agesH))
 					d, _ := m.GetDatum(lab)
-					datum.SetInt(d, int64(i+1), t0.Add(-time.Duration(agesH[st.AgeIdx]*float64(time.Hour))))
+					datum.SetInt(d, int64(i+1), ago(t0, agesH[st.AgeIdx]))
 				case k < 9:
 					st.Op = "expire"
 					e := ev.PickOne(g, expiries)
